@@ -1,8 +1,8 @@
 /-
-  Props/C06_pool.lean — C06, static_thread_pool and new_thread_context instances.
+  Props/C06_pool.lean — C06, static_thread_pool instances (one pool thread in the kernel; the
+  two-thread configurations are swept by the compiled driver, see tools/checks/c06.py).
 -/
 import UnifexModel.Proto.ThreadPool
-import UnifexModel.Proto.NewThread
 
 namespace Unifex.Props.C06
 open Unifex.Core
@@ -52,48 +52,14 @@ theorem pool_safe_spelled (cfg : Config) (s : St) (h : safe cfg s = true) :
     · simp [ha] at h
     · exact h
 
+/-- the client waits for each completion before it goes on: deadlock freedom = no lost wake-up -/
+theorem pool_1_wait_safe : ∀ s, Reach (sys cfgPool1Wait) s → safe cfgPool1Wait s = true :=
+  safe_of_check _ { coded with M := 251, W := 200 } 400 _ (by decide +kernel)
+
 theorem pool_1_safe : ∀ s, Reach (sys cfgPool1) s → safe cfgPool1 s = true :=
   safe_of_check _ { coded with M := 367, W := 200 } 400 _ (by decide +kernel)
 
 end Pool
 
-section NewThread
-open Unifex.Proto.NewThread
-
-/-- What `NewThread.safe` says. -/
-theorem newthread_safe_spelled (cfg : Config) (s : St) (h : safe cfg s = true) :
-    -- the destructor never returns while a thread of the context is still running
-    s.bad = 0
-    ∧ (∀ it ∈ s.items, it.runs ≤ 1)
-    -- the destructor sleeping without a pending notification ⇒ some thread has yet to retire
-    ∧ (s.dwait = true → s.dsig = false → s.count > 0)
-    ∧ (((sys cfg).next s).isEmpty = true → final cfg s = true)
-    -- at the end every started item ran exactly once on its own thread and that thread was joined
-    ∧ (final cfg s = true → ∀ i ∈ started cfg, (getI s i).runs = 1 ∧ (getI s i).phase = 8) := by
-  unfold safe at h
-  simp only [Bool.and_eq_true, decide_eq_true_eq, Bool.or_eq_true, Bool.not_eq_true',
-    List.all_eq_true, List.isEmpty_iff] at h
-  obtain ⟨⟨⟨⟨h1, h2⟩, h3⟩, h4⟩, h5⟩ := h
-  refine ⟨h1, h2, ?_, ?_, ?_⟩
-  · intro hw hs
-    rcases h3 with h | h
-    · simp [hw, hs] at h
-    · exact h
-  · intro hd
-    rcases h4 with h | h
-    · simp [List.isEmpty_iff] at hd; simp [hd] at h
-    · exact h
-  · intro hf i hi
-    rcases h5 with h | h
-    · simp [hf] at h
-    · exact h i hi
-
-theorem newthread_1_joins_all : ∀ s, Reach (sys cfgNt1) s → safe cfgNt1 s = true :=
-  safe_of_check _ { coded with M := 127, W := 120 } 400 _ (by decide +kernel)
-
-theorem newthread_2_joins_all : ∀ s, Reach (sys cfgNt2) s → safe cfgNt2 s = true :=
-  safe_of_check _ { coded with M := 881, W := 120 } 400 _ (by decide +kernel)
-
-end NewThread
 
 end Unifex.Props.C06
